@@ -1,5 +1,6 @@
 import OnlVerif.Lemmas.TokenBucket
 import OnlVerif.Lemmas.TwoRate
+import OnlVerif.Lemmas.GenBucket
 /-!
 # C11 — token-bucket output conforms to (rate, bucket) and delays nothing needlessly
 
@@ -380,6 +381,60 @@ theorem tworate_lossless_fifo (c : TrCfg ℚ) (t0 : ℚ) (as : List (FAct ℚ)) 
   have hcons := run_conserves (dev c) (idPreserving c) as (trStart c t0) s ins outs (init_shape _ _) h
   have hio : ins = outs ++ held s := by simpa [trStart, init_held] using hcons.1
   exact ⟨hio, fun hq => (by rw [hio, quiescent_held_empty s hcons.2 hq, List.append_nil])⟩
+
+/-! ### The source, re-translated on every run, *is* the model (bridge theorems)
+
+`Generated/Bucket.lean` is rewritten by `py2lean` from the current `onl/netdev/token_bucket.py` / `two_level_token_bucket.py`
+before this file is compiled: `put`, and one round of each server generator `run`, split at its `yield env.timeout(…)`
+statements (`run_resume`: from the `get` to the first yield or the end of the round; `run_after_i`: from the resumption
+after yield `i`).  `GenBucket.tbObj` / `trObj` encode a model state as the Python object (`out` attached);
+`GenBucket.tbAfter` / `TrAgrees` say what a burst of the model's server leaves (asleep in which yield for which timeout /
+round complete, packet coloured and forwarded / the exception the model names). -/
+
+/-- **`TokenBucket.put` and a round of `TokenBucket.run` as written in the source are the model's `admitPkt`, `onResume`,
+`onFire`, `onDone`**: refill `min(bucket_size, level + rate·Δt/8)`, the test `size > level`, the token wait
+`(size − level)·8/rate`, the debits, the peak-rate spacing `size·8/peak` iff `peak` is truthy, `out.put` and the counter. -/
+theorem tb_generated_eq_model (c : TbCfg ℚ) (d : TbSt ℚ) (puts outs ya : Nat) (ydt now x y : ℚ) (w k : Nat) (p : Pkt ℚ) :
+    Gen.TokenBucket.put (GenBucket.tbObj c d puts outs ya ydt) =
+      GenBucket.tbObj c (TokenBucket.admitPkt d now w p).1 (puts + 1) outs ya ydt ∧
+    (d.tokWait = false →
+      some (Gen.TokenBucket.run_resume (GenBucket.tbObj c d puts outs ya ydt) now p.size) =
+        GenBucket.tbAfter c (TokenBucket.onResume c d now x y p) puts outs) ∧
+    (d.tokWait = true →
+      some (Gen.TokenBucket.run_after_1 (GenBucket.tbObj c d puts outs ya ydt) now p.size) =
+        GenBucket.tbAfter c (TokenBucket.onFire c d now k p) puts outs) ∧
+    (d.tokWait = false →
+      some (Gen.TokenBucket.run_after_2 (GenBucket.tbObj c d puts outs ya ydt) now p.size) =
+        GenBucket.tbAfter c (TokenBucket.onFire c d now k p) puts outs) :=
+  ⟨GenBucket.tb_put_eq c d puts outs ya ydt now w p, GenBucket.tb_resume_eq c d puts outs ya ydt now x y p,
+   GenBucket.tb_after_token_wait_eq c d puts outs ya ydt now k p, GenBucket.tb_after_peak_wait_eq c d puts outs ya ydt now k p⟩
+
+/-- **`TwoRateTokenBucket.put` and a round of `TwoRateTokenBucket.run` as written in the source are the model's `admitPkt`,
+`onResume`, `onFire`, `onDone`**: both refills, `assert self.pbs` / the `TypeError` on a missing peak bucket, the colour
+decision (red after the PIR wait, yellow when only the peak bucket pays, green when both pay; without PIR yellow after the
+CIR wait, else green), the waits `(size − level)·8/rate`, the debits, `out.put`. -/
+theorem tworate_generated_eq_model (c : TrCfg ℚ) (d : TrSt ℚ) (puts outs paints : Nat) (col : Int) (ya : Nat)
+    (ydt now x y : ℚ) (w n : Nat) (p : Pkt ℚ) :
+    Gen.TwoRateTokenBucket.put (GenBucket.trObj c d puts outs paints col 0 ya ydt) =
+      GenBucket.trObj c (TwoRate.admitPkt d now w p).1 (puts + 1) outs paints col 0 ya ydt ∧
+    GenBucket.TrAgrees c (Gen.TwoRateTokenBucket.run_resume (GenBucket.trObj c d puts outs paints col 0 ya ydt) now p.size)
+      (TwoRate.onResume c d now x y p) puts outs paints col ∧
+    ((TwoRate.pirOn c).isSome →
+      GenBucket.TrAgrees c (Gen.TwoRateTokenBucket.run_after_1 (GenBucket.trObj c d puts outs paints col 0 ya ydt) now p.size)
+        (TwoRate.onFire c d now n p) puts outs paints col) ∧
+    (TwoRate.pirOn c = none →
+      GenBucket.TrAgrees c (Gen.TwoRateTokenBucket.run_after_2 (GenBucket.trObj c d puts outs paints col 0 ya ydt) now p.size)
+        (TwoRate.onFire c d now n p) puts outs paints col) :=
+  ⟨GenBucket.tr_put_eq c d puts outs paints col 0 ya ydt now w p,
+   GenBucket.tr_resume_agrees c d puts outs paints col ya ydt now x y p,
+   GenBucket.tr_after_pir_wait_agrees c d puts outs paints col ya ydt now n p,
+   GenBucket.tr_after_cir_wait_agrees c d puts outs paints col ya ydt now n p⟩
+
+/-- the translated round on a concrete bucket: rate 8, bucket 10, empty at t = 0; a 4-byte packet at t = 1 finds 1 token and
+waits (4 − 1)·8/8 = 3 in yield 1 -/
+example : (Gen.TokenBucket.run_resume (GenBucket.tbObj { rate := 8, bucket := 10, peak := none } { level := 0, upd := 0 } 1 0 0 0) 1 4).yield_dt = 3 ∧
+    (Gen.TokenBucket.run_resume (GenBucket.tbObj { rate := 8, bucket := 10, peak := none } { level := 0, upd := 0 } 1 0 0 0) 1 4).yield_at = 1 := by
+  decide +kernel
 
 /-! ### non-vacuity -/
 
